@@ -385,6 +385,8 @@ class Interp:
                 s = st.copy()
                 s.unk = s.unk + ((g[1], False),)
                 s.note("¬?" + str(g[1]))
+                if isinstance(g[1], tuple) and len(g[1]) == 3 and g[1][0] == "flag":
+                    flag_read_fact(s, g[1][1], False)
                 return [s]
             return self.assume(st, f_not(g), note)
         if k == "unk":
@@ -393,6 +395,8 @@ class Interp:
             s = st.copy()
             s.unk = s.unk + ((f[1], True),)
             s.note("?" + str(f[1]))
+            if isinstance(f[1], tuple) and len(f[1]) == 3 and f[1][0] == "flag":
+                flag_read_fact(s, f[1][1], True)
             return [s]
         raise Unsupported("formula " + str(k))
 
